@@ -108,7 +108,7 @@ def items(events, case="lower", trailing_dangling=False):
         d = ev.get("doc", 0)
         if d == 2:
             out.append(("doc", [f"Dangling before {i}."], None))
-        if d:
+        if d and k != "module":
             out.append(("doc", doc_lines(ev, i), None))
         nm = name_of(ev, i)
 
@@ -144,7 +144,7 @@ def items(events, case="lower", trailing_dangling=False):
             if ev.get("impldoc"):
                 out.append(("doc", list(ev["impldoc"]) if isinstance(ev["impldoc"], (list, tuple))
                             else [f"Doc on the implementing definition of {i}."], None))
-            cmd(ev.get("impl", "function"), ['"${%s}"' % mname, "self"] + list(ev.get("params", [])))
+            cmd(ev.get("impl", "function"), ['"${%s}"' % mname, ev.get("selfname", "self")] + list(ev.get("params", [])))
             st.append((k, i))
         elif k in ("ct_add_test", "ct_add_section"):
             args = ["NAME", nm] + (["EXPECTFAIL"] if ev.get("expectfail") else [])
